@@ -1,0 +1,19 @@
+//go:build verif
+
+package shutterservice
+
+import (
+	"github.com/jackc/pgx/v4/pgxpool"
+
+	"github.com/shutter-network/rolling-shutter/rolling-shutter/p2p"
+)
+
+// VerifGossipHandlers builds the two message handlers of the Shutter service keyper (their
+// only field is unexported) in the order in which Start adds them to the p2p messaging,
+// before the messaging middleware is put in front of it for the core keyper's handlers.
+func VerifGossipHandlers(dbpool *pgxpool.Pool) []p2p.MessageHandler {
+	return []p2p.MessageHandler{
+		&DecryptionKeySharesHandler{dbpool},
+		&DecryptionKeysHandler{dbpool},
+	}
+}
